@@ -131,9 +131,10 @@ DisProg(o, d, s, f, m, ctx) ==
   IN CASE ctx = 1 -> core
        [] ctx = 2 -> << I(183, 0, 0, 0, 0) >> \o core \o << I(EXIT, 0, 0, 0, 0) >>
        [] ctx = 3 -> << I(LDDW, 1, 0, 0, 5), Second(6) >> \o core
+       [] ctx = 4 -> << I(EXIT, 0, 0, 0, 0) >> \o core                   \* after an operand-less instruction
 DisD1(o) ==
   { <<"d1", DisProg(o, t[1], t[2], t[3], t[4], t[5])>> :
-      t \in { x \in Nib \X Nib \X DOffs \X DImms \X (1..3) :
+      t \in { x \in Nib \X Nib \X DOffs \X DImms \X (1..4) :
                 (o = CALL => x[2] \in {0, 1}) /\ Keep(x[1] + 3 * x[2] + 5 * (x[3] % 97) + 7 * (x[4] % 89) + 11 * x[5]) } }
 DisSeeds == IF "disasm" \in Fams THEN { <<"op", o>> : o \in DisOps } ELSE {}
 
